@@ -382,7 +382,7 @@ func runSequential(r *lib.Run, gidx, idx int) {
 
 func TestC08(t *testing.T) {
 	r := lib.Start("C08", "exploration")
-	nSeq, nIlv, nConc := r.N(40, 1200), r.N(16, 320), r.N(12, 96)
+	nSeq, nIlv, nConc := r.N(32, 480), r.N(12, 120), r.N(8, 48)
 	if r.Race {
 		nConc = max(nConc, 3) // the race detector is there for the concurrent mode
 	}
@@ -407,6 +407,10 @@ func TestC08(t *testing.T) {
 			runConcurrent(r, i, i-nSeq-nIlv)
 		}
 	})
+	floor := 20
+	if r.Race {
+		floor = 6 // the race binary runs an eighth of the cases
+	}
 	r.Assume("expected values are read from the chain.Blk objects the node was given and from the map-based chain.State model (a state diff means what the Starknet specification says); Juno's adapters are not re-implemented: hashes, numbers, orders, statuses, counts and the identifying scalar/list fields are compared")
 	r.Assume("the synchroniser is sync.NoopSynchronizer (no pre-confirmed block) and the VM is nil: pre_confirmed ids and VM/network methods are not exercised; v0.8 'pending' is exercised because Juno answers it from the head alone (empty block on the head)")
 	r.Assume("l1_accepted with no recorded L1 head denotes no block (BLOCK_NOT_FOUND); with one it is block min(L1 head number, height); ACCEPTED_ON_L1 iff block number <= recorded L1 head number")
@@ -415,7 +419,7 @@ func TestC08(t *testing.T) {
 	r.Assume("interleave mode: a Store / RevertHead / SetL1Head that commits between two reads of one RPC handler is a schedule the real node can produce (handlers take no lock against the synchroniser); it is produced deterministically through blockchain.WithListener (OnRead) and a read-counting wrapper of the in-memory store")
 	r.Finish("three modes, both state backends alternate by case. (1) sequential: random history (grow / revert / fork / re-store reverted blocks / SetL1Head below, at and above the height, optionally starting from the empty chain); after every step every block id ever valid (numbers up to height+2, every hash ever generated incl. reverted ones, unknown hash, latest, l1_accepted, v0.8 pending) x block methods, every tx hash ever seen x tx methods, sampled state reads; each request as JSON bytes through jsonrpc.Server.HandleReader against the v0.8, v0.9 and v0.10 method tables; every response compared field by field with the model incl. exact not-found error codes; then v0.8/v0.9/v0.10 compared after the allow-listed normalisations. "+
 		"(2) interleave: head transitions A->B (extend, shrink, one-block reorg, L1 head up/down) committed before the k-th blockchain accessor call (block/tx methods) or the k-th database read (state methods) of a request, for every k; the response must be the model's answer for A or for B. "+
-		"(3) concurrent: 4 reader goroutines vs a writer storing/reverting/switching forks/moving the L1 head; each response must match the model at one of the heads between call and return (also run under -race). distinct = distinct histories", 20)
+		"(3) concurrent: 4 reader goroutines vs a writer storing/reverting/switching forks/moving the L1 head; each response must match the model at one of the heads between call and return (also run under -race). distinct = distinct histories", floor)
 }
 
 var _ = felt.Zero
